@@ -748,8 +748,8 @@ class Compiler:
                 self._emit(OpCode.RETURN_UNDEFINED)
 
         elif isinstance(node, ThrowStatement):
-            self._set_loc(node)  # Record location of throw statement
             self._compile_expression(node.argument)
+            self._set_loc(node)  # Record location of throw statement
             self._emit(OpCode.THROW)
 
         elif isinstance(node, TryStatement):
@@ -1047,6 +1047,8 @@ class Compiler:
         old_locals = self.locals
         old_loop_stack = self.loop_stack
         old_try_stack = self.try_stack
+        old_source_map = self.source_map
+        old_current_loc = self._current_loc
         old_in_function = self._in_function
         old_free_vars = self._free_vars
         old_cell_vars = self._cell_vars
@@ -1061,6 +1063,7 @@ class Compiler:
         self.locals = [p.name for p in node.params] + ["arguments"]
         self.loop_stack = []
         self.try_stack = []
+        self.source_map = {}  # positions are relative to this function's bytecode
         self._in_function = True
 
         # Collect all var declarations to know the full locals set
@@ -1096,6 +1099,7 @@ class Compiler:
             num_locals=len(self.locals),
             free_vars=self._free_vars[:],
             cell_vars=self._cell_vars[:],
+            source_map=self.source_map,
         )
 
         # Pop outer scope if we pushed it
@@ -1108,6 +1112,8 @@ class Compiler:
         self.locals = old_locals
         self.loop_stack = old_loop_stack
         self.try_stack = old_try_stack
+        self.source_map = old_source_map
+        self._current_loc = old_current_loc
         self._in_function = old_in_function
         self._free_vars = old_free_vars
         self._cell_vars = old_cell_vars
@@ -1135,6 +1141,8 @@ class Compiler:
         old_locals = self.locals
         old_loop_stack = self.loop_stack
         old_try_stack = self.try_stack
+        old_source_map = self.source_map
+        old_current_loc = self._current_loc
         old_in_function = self._in_function
         old_free_vars = self._free_vars
         old_cell_vars = self._cell_vars
@@ -1156,6 +1164,7 @@ class Compiler:
 
         self.loop_stack = []
         self.try_stack = []
+        self.source_map = {}  # positions are relative to this function's bytecode
         self._in_function = True
 
         # Collect all var declarations to know the full locals set
@@ -1197,6 +1206,7 @@ class Compiler:
             num_locals=len(self.locals),
             free_vars=self._free_vars[:],
             cell_vars=self._cell_vars[:],
+            source_map=self.source_map,
         )
 
         # Pop outer scope if we pushed it
@@ -1209,6 +1219,8 @@ class Compiler:
         self.locals = old_locals
         self.loop_stack = old_loop_stack
         self.try_stack = old_try_stack
+        self.source_map = old_source_map
+        self._current_loc = old_current_loc
         self._in_function = old_in_function
         self._free_vars = old_free_vars
         self._cell_vars = old_cell_vars
@@ -1238,6 +1250,8 @@ class Compiler:
 
     def _compile_expression(self, node: Node) -> None:
         """Compile an expression."""
+        # Runtime errors report the position of the nearest located sub-expression
+        self._set_loc(node)
         if isinstance(node, NumericLiteral):
             idx = self._add_constant(node.value)
             self._emit(OpCode.LOAD_CONST, idx)
